@@ -89,7 +89,7 @@ out.append("Summary (own property's check; `weak` = reported only as `no-failing
 out.append("")
 out.append("| round | changes | first run: caught / weak / missed | now: caught / weak / missed |")
 out.append("|---|---|---|---|")
-for rnd in (1, 2, 3, 4, 5, 6):
+for rnd in (1, 2, 3, 4, 5, 6, 7):
     n = sum(cnt[(rnd, "now", k)] for k in ("caught", "weak", "missed"))
     out.append(f"| {rnd} | {n} | {cnt[(rnd,'first','caught')]} / {cnt[(rnd,'first','weak')]} / {cnt[(rnd,'first','missed')]} | {cnt[(rnd,'now','caught')]} / {cnt[(rnd,'now','weak')]} / {cnt[(rnd,'now','missed')]} |")
 mxp = os.path.join(VERIF, "seeded", "MATRIX.json")
